@@ -10,7 +10,7 @@ MANIFEST = {
          "and otherwise uv__next_timeout (min(due - now, INT_MAX) or -1); uv_backend_timeout; the io_poll timeout loop never "
          "asks for more than the remaining time and, with the idle-time metric, polls once with 0 first; loop-watcher iteration "
          "calls no handle twice per iteration; uv_stop semantics (flag cleared, zero iterations when set before uv_run); phase "
-         "tags of one iteration are ordered.  Tied to the working tree by the loop simulator (virtual clock, scripted "
+         "tags of one iteration are ordered.  watcher_once and watcher_exactly_once, phase_order incl. the DEFAULT-mode initial timer segment, and block_bound (clock readings below 2^64) are theorems; the timeout kernels are regenerated from /repo on every run and proved equal to the model kernels (UvModel.GenEq).  Tied to the working tree by the loop simulator (virtual clock, scripted "
          "epoll_pwait incl. EINTR, UV_METRICS_IDLE_TIME on/off, three run modes) with a line-by-line diff (every `env poll "
          "timeout=` line) and independent monitors (phase automaton, once-per-iteration, timeout rule, stop semantics).",
  "note": "Trusted: Lean kernel, simulator interposition (epoll_pwait never really sleeps: the virtual clock advances by the "
